@@ -71,18 +71,16 @@ Definition show_N (n : N) : list N := if N.eqb n 0 then [48] else show_pos_f 80 
 Definition content_range_value (c : crange) : list N :=
   Rg_BYTES ++ [32] ++ show_N (c_start c) ++ [45] ++ show_N (c_end c) ++ [47] ++ show_N (c_size c).
 Definition SEP_LINE : list N := [45;45] ++ Rg_STRING_SEPARATOR.
+(* one part of a multipart/byteranges body *)
+Definition bpart (first : bool) (c : crange) : list N :=
+  (if first then [] else CRLF) ++ SEP_LINE ++ CRLF ++
+  Hd_CONTENT_TYPE ++ COLON_SP ++ [32] ++ c_type c ++ CRLF ++
+  Hd_CONTENT_RANGE ++ COLON_SP ++ [32] ++ content_range_value c ++ CRLF ++ CRLF ++ c_body c.
 Definition gen_body (l : list crange) : list N :=
   match l with
   | [] => []
   | [c] => c_body c
-  | _ =>
-    let part (first : bool) (c : crange) :=
-      (if first then [] else CRLF) ++ SEP_LINE ++ CRLF ++
-      Hd_CONTENT_TYPE ++ COLON_SP ++ [32] ++ c_type c ++ CRLF ++
-      Hd_CONTENT_RANGE ++ COLON_SP ++ [32] ++ content_range_value c ++ CRLF ++ CRLF ++ c_body c in
-    match l with
-    | c0 :: rest => part true c0 ++ flat_map (part false) rest ++ CRLF ++ SEP_LINE
-    | [] => [] end
+  | c0 :: rest => bpart true c0 ++ flat_map (bpart false) rest ++ CRLF ++ SEP_LINE
   end.
 Definition derived_headers (l : list crange) : list header :=
   match l with
